@@ -2859,6 +2859,30 @@ class Interp:
         return self.unknown("expr-" + type(n).__name__, n)
 
     def comprehension(self, n, env: dict) -> Val:
+        if len(n.generators) >= 2 and isinstance(n, (ast.ListComp, ast.GeneratorExp)) and not n.generators[0].ifs:
+            # [e for a in A for b in B(a)] over a known outer sequence: the inner lists, one after the other
+            g0 = n.generators[0]
+            it0 = self.eval(g0.iter, env)
+            if isinstance(it0, ObjV) and it0.tag == "lazy-map":
+                from .prims import _realise_map
+                items0 = _realise_map(self, it0, g0.iter)
+                it0 = Seq(items0, "list") if items0 is not None else it0
+            sp0, iv0, elem0 = self.iteration(it0, g0.iter)
+            if sp0 is None:
+                inner = ast.copy_location(ast.ListComp(elt=n.elt, generators=n.generators[1:]), n)
+                out = []
+                ok = True
+                for item in elem0:
+                    sub = dict(env)
+                    self.assign(g0.target, item, sub, n)
+                    r = self.comprehension(inner, sub)
+                    if isinstance(r, Seq):
+                        out.extend(r.items)
+                    else:
+                        ok = False
+                        break
+                if ok:
+                    return Seq(out, "list")
         if len(n.generators) != 1:
             return self.unknown("nested-comprehension", n)
         g = n.generators[0]
